@@ -102,7 +102,14 @@ def cases(tier, seed):
                     "select": bool(rng.random() < 0.5),
                     "learn_between": bool(rng.random() < 0.6),
                     "seed": int(rng.integers(1 << 30)),
+                    # Mutations(mutate_elite=False): the first member is protected from mutation, everything the
+                    # statement says about "every agent" still has to hold for it
+                    "mutate_elite": bool((pi + s + zoo.ALL.index(algo)) % 3 != 1),
                 }
+                if probs[1] > 0 and (pi + s + zoo.ALL.index(algo)) % 2 == 0:
+                    # heads that sit AT their layer limits: layer mutations are stopped by the bound and fall back to node
+                    # mutations, whose (random) arguments have to reach every network trained alongside the policy
+                    c["tight_head"] = True
                 if algo in zoo.HAS_SHARE_ENCODERS:
                     c["share_encoders"] = bool((pi + s) % 2)
                 if probs[4] > 0:
@@ -111,6 +118,16 @@ def cases(tier, seed):
                 if probs[4] == 1.0 and algo in zoo.HAS_SHARE_ENCODERS | {"IPPO", "MATD3"}:
                     # learners with several networks / groups per learning rate: one more lr-only case with learning first
                     out.append(dict(c, seed=c["seed"] + 1, learn_between=True, gens=max(2, c["gens"]), share_encoders=not c.get("share_encoders", False)) if algo in zoo.HAS_SHARE_ENCODERS else dict(c, seed=c["seed"] + 1, learn_between=True, gens=max(2, c["gens"])))
+    # directed: learners with several trained networks, heads at their layer limit, architecture mutations only
+    for algo in zoo.ALL:
+        if algo in zoo.HAS_SHARE_ENCODERS | {"IPPO", "MADDPG", "MATD3"}:
+            for rep in range(1 if tier == "quick" else 6):
+                c = {"algo": algo, "obs": "vector", "probs": [0.0, 1.0, 0.0, 0.0, 0.0], "pre": False, "pop": 3, "gens": 3,
+                     "select": bool(rep % 2), "learn_between": bool(rep % 2), "seed": int(rng.integers(1 << 30)),
+                     "mutate_elite": True, "tight_head": True}
+                if algo in zoo.HAS_SHARE_ENCODERS:
+                    c["share_encoders"] = bool(rep % 2)
+                out.append(c)
     return out
 
 
@@ -384,6 +401,9 @@ def run_case(case):
     kw = {}
     if "share_encoders" in case:
         kw["share_encoders"] = case["share_encoders"]
+    if case.get("tight_head"):
+        kw["net_config"] = {"head_config": {"hidden_size": [16, 16], "min_hidden_layers": 1, "max_hidden_layers": 2,
+                                            "min_mlp_nodes": 8, "max_mlp_nodes": 64}}
     agentops.seed_all(case["seed"])
     try:
         shared_cfg = zoo.tiny_hp_config(algo)
@@ -399,7 +419,8 @@ def run_case(case):
         rec.hit("setup_failed")
         rec.extra["setup_failed"] = f"{type(e).__name__}: {str(e)[:140]}"
         return rec.result()
-    m = agentops.make_mutations(probs=case["probs"], seed=case["seed"] % 100000)
+    m = agentops.make_mutations(probs=case["probs"], seed=case["seed"] % 100000, mutate_elite=bool(case.get("mutate_elite", True)),
+                                **({"new_layer_prob": 0.7} if case.get("tight_head") else {}))
     real_applied = False
     learned = False
     for gen in range(case["gens"]):
